@@ -82,6 +82,9 @@ class Poisson(DiscreteRandomVariable):
     def pmf(self, x):
         if x < 0:
             return 0
+        if x > 100:
+            # mu**x and x! are astronomically large here: use logarithms.
+            return math.exp(x*math.log(self.mu) - self.mu - math.lgamma(x+1))
         return self.mu**x * math.exp(-self.mu) / factorial(x)
 
     def mean(self):
